@@ -360,6 +360,24 @@ int apply_low (const char *fun, object_t * ob, int num_arg) {
                */
               return 1;
             }
+
+          /* The function exists but is not visible to this caller.  Cache where
+           * it is, not "not in the object": visibility depends on the origin of
+           * the call and is tested again on every cache hit, so a later driver
+           * or call_out apply of the same function must still find it.
+           */
+          entry->oprogp = ob->prog;
+          entry->id = progp->id_number;
+          entry->name = ref_string (sfun);
+          entry->index = index;
+          entry->variable_index_offset = vio;
+          entry->function_index_offset = fio;
+          entry->num_arg = fundefp->num_arg;
+          entry->num_local = fundefp->num_local;
+          entry->progp = prog;
+          pop_n_elems (num_arg);
+          opt_trace (TT_EVAL, "not visible to caller: \"%s\"", fun);
+          return 0;
         }
       /* We have to mark a function not to be in the object */
       entry->id = progp->id_number;
